@@ -271,3 +271,31 @@ func (ex *Exec) noteAccess(c *Cell, write bool) {
 		ex.yieldPoint(&access{c: c}, nil)
 	}
 }
+
+// quiesce (main thread only): lets the other goroutines run until none of them can
+// continue, and returns how many have not returned (they are blocked forever: the main
+// thread does nothing further that could release them).
+func (ex *Exec) quiesce() int {
+	s := ex.sched
+	if s == nil {
+		return 0
+	}
+	if s.cur != 0 {
+		ex.unsupported("vpQuiesce outside the main goroutine")
+	}
+	ex.yieldPoint(nil, func() bool {
+		for _, t := range s.threads[1:] {
+			if t.runnable() {
+				return false
+			}
+		}
+		return true
+	})
+	left := 0
+	for _, t := range s.threads[1:] {
+		if !t.done {
+			left++
+		}
+	}
+	return left
+}
